@@ -199,7 +199,7 @@ fn generate(rng: &mut Rng, index: u64) -> ConnScenario {
     // the authentication service may be down (a cookie that is not acceptable does not become acceptable because of that)
     let auth_down = rng.chance(1, 8);
     let services = Services {
-        auth: Script::always(Some(0), if auth_down { AuthRes::Error } else { AuthRes::Profile { name: VOUCHED_NAME.into(), uuid: format!("{:032x}", 0xabcdu128), props: vec![] } }),
+        auth: Script::always(Some(*rng.pick(&[0u64, 0, 0, secs(3), secs(8), secs(30)])), if auth_down { AuthRes::Error } else { AuthRes::Profile { name: VOUCHED_NAME.into(), uuid: format!("{:032x}", 0xabcdu128), props: vec![] } }),
         discovery: Script::always(Some(0), DiscRes::Targets(vec![gen_target(rng, 0)])),
         ..Default::default()
     };
